@@ -301,7 +301,7 @@ func VerifC09_SequenceBoundary() {
 	verifrt.Assume(a.size[1] >= 16)
 	total := int64(a.v.totalSize)
 	labels := [3]string{"op0", "op1", "op2"}
-	for _, l := range labels[:verifrt.Bound("C09.seqb.ops", 2, 3)] {
+	for _, l := range labels[:verifrt.Bound("C09.seqb.ops", 2, 2)] {
 		off := verifrt.Int64(l + ".off")
 		n := verifrt.Int(l + ".n")
 		verifrt.Assume(off >= a.start[1]-1)
